@@ -6,6 +6,8 @@ import HpxVerif.Lemmas.BmocViews
 import HpxVerif.Lemmas.BmocXor3
 import HpxVerif.Lemmas.BmocOr2
 
+set_option autoImplicit false   -- an unknown identifier in a statement is an error, never a new variable
+
 /-!
 # C09 — every BMOC handed to the user is well formed and its views agree
 
